@@ -224,10 +224,26 @@ func init() {
 	})
 }
 
+// c10Tag derives the names of a repository's own entities (labels, variables, inputs, outputs) from
+// its directory name; names that differ only in letter case get different tags.
+func c10Tag(repo string) string {
+	t := strings.ToUpper(strings.NewReplacer("-", "_", "/", "_").Replace(repo))
+	if repo != strings.ToLower(repo) {
+		n := 0
+		for i, c := range repo {
+			if c >= 'A' && c <= 'Z' {
+				n += i + 1
+			}
+		}
+		t += fmt.Sprintf("_U%d", n)
+	}
+	return t
+}
+
 func c10Workflow(rt *rapid.T, repo string, allRepos []string, hasConfig bool, idx int) (string, []string) {
-	R := strings.ToUpper(strings.NewReplacer("-", "_", "/", "_").Replace(repo))
+	R := c10Tag(repo)
 	other := allRepos[rapid.IntRange(0, len(allRepos)-1).Draw(rt, "other")]
-	O := strings.ToUpper(strings.NewReplacer("-", "_", "/", "_").Replace(other))
+	O := c10Tag(other)
 	var b strings.Builder
 	var feats []string
 	b.WriteString("on:\n")
@@ -283,11 +299,11 @@ func genC10World(rt *rapid.T) (*c10Case, []string) {
 	var allFeats []string
 	c := &c10Case{Files: map[string]string{}}
 	nrepos := rapid.IntRange(1, 3).Draw(rt, "nrepos")
-	pool := rapid.SampledFrom([][]string{{"repo", "repo2", "repo-x"}, {"a/repo", "a/repo2", "b"}, {"proj", "project", "proj/sub"}, {"x", "y", "z"}}).Draw(rt, "names")
+	pool := rapid.SampledFrom([][]string{{"repo", "repo2", "repo-x"}, {"a/repo", "a/repo2", "b"}, {"proj", "project", "proj/sub"}, {"x", "y", "z"}, {"Service", "service", "SERVICE"}, {"a/Repo", "a/repo", "A/repo"}}).Draw(rt, "names")
 	c.Repos = append(c.Repos, pool[:nrepos]...)
 	var allFiles []string
 	for _, repo := range c.Repos {
-		R := strings.ToUpper(strings.NewReplacer("-", "_", "/", "_").Replace(repo))
+		R := c10Tag(repo)
 		hasConfig := rapid.IntRange(0, 3).Draw(rt, "hascfg") > 0
 		if hasConfig {
 			c.Files[repo+"/.github/actionlint.yaml"] = fmt.Sprintf("self-hosted-runner:\n  labels:\n    - lab-%s\n    - zeta\n    - alpha\nconfig-variables:\n  - VAR_%s\n  - ZED\n  - ABLE\n", strings.ReplaceAll(repo, "/", "-"), R)
@@ -311,7 +327,18 @@ func genC10World(rt *rapid.T) (*c10Case, []string) {
 		if rapid.Bool().Draw(rt, "calleesecret") {
 			secLine = fmt.Sprintf("    secrets:\n      s_%s:\n        required: %s\n", strings.ToLower(R), rapid.SampledFrom([]string{"true", "True", "false"}).Draw(rt, "secreq"))
 		}
-		c.Files[callee] = fmt.Sprintf("on:\n  workflow_call:\n    inputs:\n      p_%s:\n        type: %s\n%s%s%s    outputs:\n      o_%s:\n        value: x\njobs:\n  a:\n    runs-on: ubuntu-latest\n    steps:\n      - run: echo ${{ inputs.p_%s }}\n", strings.ToLower(R), ity, reqLine, idef, secLine, strings.ToLower(R), strings.ToLower(R))
+		outLines := fmt.Sprintf("    outputs:\n      o_%s:\n        value: x\n", strings.ToLower(R))
+		switch rapid.IntRange(0, 5).Draw(rt, "calleeouts") {
+		case 0:
+			outLines = "" // no outputs section at all
+		case 1:
+			outLines += "      o_second:\n        value: y\n        description: d\n"
+		}
+		c.Files[callee] = fmt.Sprintf("on:\n  workflow_call:\n    inputs:\n      p_%s:\n        type: %s\n%s%s%s%sjobs:\n  a:\n    runs-on: ubuntu-latest\n    steps:\n      - run: echo ${{ inputs.p_%s }}\n", strings.ToLower(R), ity, reqLine, idef, secLine, outLines, strings.ToLower(R))
+		if rapid.IntRange(0, 7).Draw(rt, "calleenoinputs") == 0 {
+			// a callee without any interface section
+			c.Files[callee] = "on:\n  workflow_call:\njobs:\n  a:\n    runs-on: ubuntu-latest\n    steps:\n      - run: echo\n"
+		}
 		allFiles = append(allFiles, callee)
 		nw := rapid.IntRange(1, 4).Draw(rt, "nw")
 		for i := 0; i < nw; i++ {
@@ -345,7 +372,7 @@ func genC10World(rt *rapid.T) (*c10Case, []string) {
 func TestC10(t *testing.T) {
 	race := os.Getenv("VERIF_RACE") != ""
 	hx.Main(t, "C10", func(r *hx.Run) {
-		r.Rule = "temporary worlds with 1-3 repositories (names may share a prefix: repo, repo2, repo-x; optionally nested) and optional files outside any repository; every repository has its own configuration (self-hosted labels, config-variables), a well-formed local action and a well-formed reusable workflow; 2-10 workflow files using the own/other repository's labels and variables, the local action, the reusable workflow (callee part of the invocation or not), invalid activity types and undefined configuration variables (messages that format shared tables). Argument lists: random subsets and orders, relative / ./ / absolute spellings, cwd = world root or a repository root, GOMAXPROCS 1/2/4/16. Oracle: (1) per-file diagnostics of LintFiles(list) = LintFile(file) on a fresh linter; (2) fingerprint of all built-in tables (verif hook) unchanged; (3) the same property under the race detector. Non-trivial = >= 2 files with diagnostics, or caller+callee, or two repositories in one invocation; distinct = case hash."
+		r.Rule = "temporary worlds with 1-3 repositories (names may share a prefix: repo, repo2, repo-x, or differ only in letter case; optionally nested) and optional files outside any repository; every repository has its own configuration (self-hosted labels, config-variables), a well-formed local action and a well-formed reusable workflow; 2-10 workflow files using the own/other repository's labels and variables, the local action, the reusable workflow (callee part of the invocation or not), invalid activity types and undefined configuration variables (messages that format shared tables). Argument lists: random subsets and orders, relative / ./ / absolute spellings, cwd = world root or a repository root, GOMAXPROCS 1/2/4/16. Oracle: (1) per-file diagnostics of LintFiles(list) = LintFile(file) on a fresh linter; (2) fingerprint of all built-in tables (verif hook) unchanged; (3) the same property under the race detector. Non-trivial = >= 2 files with diagnostics, or caller+callee, or two repositories in one invocation; distinct = case hash."
 		r.Assumptions = []string{"referenced local actions and reusable workflows are well-formed (as the statement requires)", "interleavings are sampled (GOMAXPROCS, repetition, many files), not enumerated; the race detector only sees executed paths"}
 		n := hx.N(220, 3000)
 		if race {
